@@ -786,6 +786,15 @@ theorem C04_iterate_hands_out_key_and_value_copies (s : MSt) (h : MInv s) (v : N
     simp only [iterKeysAll, snapshot, Mem.storeView, fullKey]
     rw [← deref_filter s.mem s.m (fun k => hasPfx (s.mem.read rv ++ s.mem.read p) k), keys_deref]
 
+/-- **The stored data along any history is the fold of value-level map operations whose arguments are the buffer contents at
+call time.**  For every history of store requests and caller actions from a fresh store: the stored data at the end is
+`effects` — `Set` ↦ `aset (R ‖ bytes k) (bytes x)`, `Delete` ↦ `adel`, `DeletePrefix` ↦ `adelPfx`, `Commit` ↦ the value model's
+`dbCommit` on the batch as it reads then, every other request and **every caller write / allocation ↦ nothing** — each taken
+with the buffers as they read at that moment of the history. -/
+theorem C04_mem_stored_data_evolves_by_value (ops : List MOp) :
+    Mem.storeView (mrun minit ops) = effects minit ops [] :=
+  storeView_run minit minv_init ops
+
 /-- The hypotheses are satisfiable, and the model has the aliasing the code has.  One key buffer reused for three batch
 calls (the usual loop) gives three operations on three keys; `WithRealm` keeps the caller's realm slice — overwriting it
 moves the view (buffer 0 is the realm of view 1; after `write 0 [2]` the same `Set` lands under realm 2) — while the view
